@@ -4,7 +4,7 @@
 //
 // ops (keys are hex byte strings, "-" = the empty key):
 //   auto B | add K V | rm K | rmc K | freeze | defrost | clear | copy | chk ALPHABET MAXLEN
-// observation of a mutating op: "fz=<isFrozen> n=<size()> e=<isEmpty()> hc=<has(char) for a,b,c,d>"
+// observation of a mutating op: "fz=<isFrozen> n=<size()> e=<isEmpty()> hc=<has(char) for 13 probe characters>"
 // observation of chk: for every query q over ALPHABET up to MAXLEN (parents before children) the
 // record  getLongest(q) / get(q) / has(q.c_str()) has(std::string q)  is computed on the current
 // (frozen or unfrozen) representation; records that differ from what q's parent implies
@@ -17,7 +17,7 @@
 typedef occa::trie<int> trie_t;
 static trie_t *T = NULL;
 static std::map<std::string, int> ref;   // the oracle: stored keys and their latest values
-static const std::string probeChars = "abcd";
+static const std::string probeChars = "abcdez\x01\x7f\x80\xa9\xc3\xe9\xff";   // has(char) probes
 
 struct rec_t {
   int len, val;        // getLongest: length and value (len = -1: no match)
@@ -33,7 +33,12 @@ static void oracle(const std::string &msg) {
   if (++nOracle <= 4) hp::oracle(msg);
 }
 
-static std::string show(const std::string &q) { return q.empty() ? "\"\"" : q; }
+static std::string show(const std::string &q) {
+  if (q.empty()) return "\"\"";
+  for (size_t i = 0; i < q.size(); ++i)
+    if (q[i] < 0x21 || q[i] > 0x7e) return "x" + hp::hex(q);   // non-printable bytes: hex
+  return q;
+}
 
 // value of a result, with the index checked against the values vector first
 static bool valueOf(const trie_t::result_t &r, int &v, const std::string &q, const char *what) {
@@ -125,7 +130,7 @@ static std::string summary() {
     for (std::map<std::string, int>::const_iterator it = ref.begin(); it != ref.end(); ++it)
       if (!it->first.empty() && it->first[0] == c) expect = true;
     if (h != expect)
-      oracle(std::string("has('") + c + "') " + (T->isFrozen ? "frozen" : "unfrozen") + " is " + (h ? "true" : "false") +
+      oracle(std::string("has('") + hp::hex(std::string(1, c)) + "') " + (T->isFrozen ? "frozen" : "unfrozen") + " is " + (h ? "true" : "false") +
              " but " + (expect ? "a" : "no") + " stored key starts with it");
   }
   if (T->size() != (int) ref.size())
